@@ -8,7 +8,6 @@ package c01
 
 import (
 	"fmt"
-	"os"
 	"strconv"
 	"strings"
 	"testing"
@@ -18,9 +17,6 @@ import (
 	"verif/internal/gen"
 	"verif/internal/pbt"
 )
-
-// key of KNOWN_FINDINGS.txt honoured here (FINDINGS.md 3): --auto-detect drops --ignore-identical
-const knownAutoDetectPolicy = "autodetect-ignores-ignore-identical"
 
 type fmtCase struct {
 	Format string    `json:"format"`
@@ -119,13 +115,6 @@ func checkFmt(dir string, c fmtCase) (o pbt.Outcome, err error) {
 	policy := 0
 	if c.Policy > 0 {
 		policy = effectivePolicy(c.Policy)
-	}
-	// FINDINGS.md 3 (reported, not yet triaged): with --auto-detect the policy is dropped on the unchanged
-	// tree. Until the finding is repaired (then remove this guard) or listed as known, the combination
-	// is generated but not executed, and counted; C01_JUDGE_AUTODETECT_POLICY=1 judges it.
-	if c.Auto && policy != 0 && (pbt.Known(knownAutoDetectPolicy) || os.Getenv("C01_JUDGE_AUTODETECT_POLICY") != "1") {
-		o.Exclude(knownAutoDetectPolicy)
-		return o, nil
 	}
 	var flags []string
 	if c.Policy >= 0 {
